@@ -344,7 +344,7 @@ pub fn check(sc: &ConnScenario, out: &ConnOutcome, rep: &mut RunReport) {
         }
     }
     // (only for the scenario as generated: an honest login that goes on to Client Information)
-    if sc.client.flood.as_ref().is_some_and(|f| f.count >= 1 && f.size >= 16) && sc.client.mutations.is_empty() && matches!(sc.client.enc, EncVariant::Honest) && sc.wplan.is_empty() && matches!(sc.client.intent, 2 | 3) && sc.client.send_info && sc.client.mute_after.is_none() && sc.client.close_after.is_none() && sc.client.protocol > 0 && !matches!(out.result.as_str(), "Ok" | "NoTargetFound") {
+    if sc.client.flood.as_ref().is_some_and(|f| f.count >= 1 && f.size >= 16) && sc.client.mutations.is_empty() && matches!(sc.client.enc, EncVariant::Honest) && sc.wplan.is_empty() && matches!(sc.client.intent, 2 | 3) && sc.client.send_info && sc.client.mute_after.is_none() && sc.client.close_after.is_none() && sc.client.protocol > 0 && sc.client.extras.iter().all(|x| x.after_ack && matches!(x.id, 0x02 | 0x06 | 0x04)) && !matches!(out.result.as_str(), "Ok" | "NoTargetFound") {
         rep.violate("valid_frames_are_consumed", format!("a burst of valid ignorable frames ended the connection with {} {}", out.result, out.result_text));
     }
     let enc_sent = out.view.sent.iter().any(|s| s.kind == "EncryptionResponse" && !s.mutated);
